@@ -9,7 +9,7 @@ from ..model import AnalysisError, Cls, Func, Program, walk_own
 from ..orderings import NotAFormula, eval_order, weak_orderings
 from ..report import Report
 from ..resolve import const_value, dotted
-from ..util import returns_of, src, norm
+from ..util import assigned_value, returns_of, src, norm
 
 BUF_MOD = "windpyutils.buffers"
 RING_MOD = "windpyutils.structures.circular_buffer"
@@ -128,7 +128,7 @@ class _Emit(Client):
                 return ((pd, npa, False, isnext, stored),)
             if kind == "store" and isinstance(tgt, ast.Subscript) and self._is_storage(tgt.value, ctx):
                 st = getattr(tgt, "_parent", None)
-                val = st.value if isinstance(st, ast.Assign) else None
+                val = assigned_value(tgt)
                 ok = isinstance(tgt.slice, ast.Name) and tgt.slice.id == self.serial and isinstance(val, ast.Name) \
                     and val.id == self.value
                 if not ok:
